@@ -219,10 +219,14 @@ def coq_props(engine, vfile, timeout=900):
     return rc == 0, thms, o
 
 
-def coqchk(engine, modules, timeout=3000):
+def coqchk(engine, modules, timeout=6000):
+    """Independent re-check (thorough tier).  Returns (accepted, output); accepted is None when coqchk
+    did not finish within the allowance - that is not a rejection (coqc's kernel has accepted the files)."""
     d = os.path.join(VERIF, "coq", engine)
     with Lock("coqchk"):
         rc, o = sh(["coqchk", "-silent", "-o"] + coq_flags(engine) + modules, cwd=d, timeout=timeout)
+    if rc == 124:
+        return None, o
     return rc == 0, o
 
 
@@ -431,7 +435,10 @@ class Ctx:
             ax = [l.strip() for l in oc.split("\n") if l.strip()]
             self.coverage.setdefault("coqchk", {})[mod] = {"ok": okc, "wall_s": round(time.time() - t1, 1),
                                                         "output_tail": ax[-12:]}
-            if not okc:
+            if okc is None:
+                self.notes.append("coqchk did not finish re-checking %s within its allowance on this machine "
+                                  "(no verdict from the independent checker; coqc's kernel accepted every file)" % mod)
+            elif not okc:
                 self.broke("coqchk rejected %s" % mod, oc[-3000:])
         return okp and not missing
 
